@@ -219,18 +219,22 @@ type GenOpts struct {
 
 var hostileMethods = []string{"HEAD", "OPTIONS", "", "BOGUS", "get", "TRACE"}
 
-func genMethods(t *rapid.T, avoid map[string]string, newOnly bool) []string {
+func genMethods(t *rapid.T, avoid map[string]string, newOnly bool, trace bool) []string {
 	if rapid.IntRange(0, 7).Draw(t, "anyMethods") == 0 {
 		return nil // Any
 	}
 	var pool []string
-	for _, m := range ref.AnyMethods {
+	all := ref.AnyMethods
+	if !trace {
+		all = append(append([]string{}, ref.AnyMethods...), "TRACE") // without a TRACE handler TRACE is registered like any method
+	}
+	for _, m := range all {
 		if !newOnly || avoid == nil || avoid[m] == "" {
 			pool = append(pool, m)
 		}
 	}
 	if len(pool) == 0 {
-		pool = ref.AnyMethods
+		pool = all
 	}
 	n := rapid.IntRange(1, 3).Draw(t, "nmethods")
 	if n > len(pool) {
@@ -294,7 +298,7 @@ func GenOps(t *rapid.T, cfg pat.Cfg, pool []string, n int, o GenOpts) []Op {
 		switch {
 		case k < 7 || len(g.tb.R) == 0 && k < 14:
 			p := rapid.SampledFrom(pool).Draw(t, "hp")
-			op := Op{Kind: "handle", Pattern: p, Methods: genMethods(t, g.tb.R[p], o.NewMethods)}
+			op := Op{Kind: "handle", Pattern: p, Methods: genMethods(t, g.tb.R[p], o.NewMethods, o.Trace)}
 			via(&op, p)
 			if g.accept(p, op.Methods) {
 				g.tb.Handle(p, "x", op.Methods)
@@ -306,7 +310,7 @@ func GenOps(t *rapid.T, cfg pat.Cfg, pool []string, n int, o GenOpts) []Op {
 				m = 10
 			}
 			perm := rapid.Permutation(pool).Draw(t, "manyPerm")
-			op := Op{Kind: "handleMany", Patterns: perm[:m], Methods: genMethods(t, nil, false)}
+			op := Op{Kind: "handleMany", Patterns: perm[:m], Methods: genMethods(t, nil, false, o.Trace)}
 			for _, p := range op.Patterns {
 				if g.accept(p, op.Methods) {
 					g.tb.Handle(p, "x", op.Methods)
@@ -335,7 +339,7 @@ func GenOps(t *rapid.T, cfg pat.Cfg, pool []string, n int, o GenOpts) []Op {
 					sort.Strings(hs)
 					ms = append(ms, rapid.SampledFrom(hs).Draw(t, "rmHave"))
 				case c < 8 || !o.Hostile:
-					ms = append(ms, rapid.SampledFrom(ref.AnyMethods).Draw(t, "rmAny"))
+					ms = append(ms, rapid.SampledFrom(append([]string{"TRACE"}, ref.AnyMethods...)).Draw(t, "rmAny"))
 				default:
 					ms = append(ms, rapid.SampledFrom(hostileMethods).Draw(t, "rmHostile"))
 				}
